@@ -80,3 +80,18 @@ impl<F: CircuitField> Vectorizable for AssignedNative<F> {
 impl<F: CircuitField> Vectorizable for AssignedByte<F> {
     const FILLER: u8 = 0u8;
 }
+
+/// verif-hooks H7: read-only access to the padded buffer and the length cell of an `AssignedVector`
+/// (both `pub(crate)`), so that an out-of-tree harness can expose them as public inputs.
+#[cfg(feature = "verif-hooks")]
+impl<F: CircuitField, T: Vectorizable, const M: usize, const A: usize> AssignedVector<F, T, M, A> {
+    /// The padded buffer (payload and filler cells).
+    pub fn verif_buffer(&self) -> &[T; M] {
+        &self.buffer
+    }
+
+    /// The assigned effective length.
+    pub fn verif_len(&self) -> &AssignedNative<F> {
+        &self.len
+    }
+}
